@@ -137,10 +137,14 @@ Definition neg_ctx (c : ctx) : ctx :=
 Definition rule_ctx (c : ctx) (r : rule) : ctx :=
   {| c_atom := body_atom c r; c_rule := r_name r; c_neg := c_neg c; c_sup := c_sup c |}.
 
-Fixpoint eval (fuel : nat) (c : ctx) (e : expr) (s : st) {struct fuel} : res :=
+Inductive task := TEval (e : expr) | TSeq (es : list expr) | TAlt (es : list expr) | TStar (e : expr).
+
+Fixpoint run (fuel : nat) (c : ctx) (t : task) (s : st) {struct fuel} : res :=
   match fuel with
   | O => Fuel
   | S f =>
+  match t with
+  | TEval e =>
     match e with
     | EStr lit =>
         match strip_prefix lit (s_rest s) with
@@ -174,42 +178,42 @@ Fixpoint eval (fuel : nat) (c : ctx) (e : expr) (s : st) {struct fuel} : res :=
         match lookup g n with
         | None => Err
         | Some r =>
-            match eval f (rule_ctx c r) (r_body r) (push_tag tag s) with
+            match run f (rule_ctx c r) (TEval (r_body r)) (push_tag tag s) with
             | Ok s1 kids =>
                 let '(s2, ps) := finish_rule c r (s_pos s) s1 kids in
                 Ok (pop_tag tag s2) ps
             | x => x
             end
         end
-    | ESeq es => eval_seq f c es s
-    | EAlt es => eval_alt f c es s
+    | ESeq es => run f c (TSeq es) s
+    | EAlt es => run f c (TAlt es) s
     | EOpt e1 =>
-        match eval f c e1 s with
+        match run f c (TEval e1) s with
         | Fail t => Ok (set_trk s t) []
         | x => x
         end
     | EStar e1 =>
-        match eval f c e1 s with
+        match run f c (TEval e1) s with
         | Ok s1 p1 =>
-            match eval_star f c e1 s1 with
+            match run f c (TStar e1) s1 with
             | Ok s2 p2 => Ok s2 (p1 ++ p2)
             | x => x
             end
         | Fail t => Ok (set_trk s t) []
         | x => x
         end
-    | EPlus e1 => eval_seq f c [e1; EStar e1] s
-    | ERepN e1 n => eval_seq f c (repeat e1 n) s
-    | ERepMin e1 n => eval_seq f c (repeat e1 n ++ [EStar e1]) s
-    | ERepMax e1 n => eval_seq f c (repeat (EOpt e1) n) s
-    | ERepMinMax e1 m n => eval_seq f c (repeat e1 m ++ repeat (EOpt e1) (n - m)) s
+    | EPlus e1 => run f c (TSeq [e1; EStar e1]) s
+    | ERepN e1 n => run f c (TSeq (repeat e1 n)) s
+    | ERepMin e1 n => run f c (TSeq (repeat e1 n ++ [EStar e1])) s
+    | ERepMax e1 n => run f c (TSeq (repeat (EOpt e1) n)) s
+    | ERepMinMax e1 m n => run f c (TSeq (repeat e1 m ++ repeat (EOpt e1) (n - m))) s
     | EAnd e1 =>
-        match eval f c e1 s with
+        match run f c (TEval e1) s with
         | Ok s1 _ => Ok (set_trk s (s_trk s1)) []
         | x => x
         end
     | ENot e1 =>
-        match eval f (neg_ctx c) e1 s with
+        match run f (neg_ctx c) (TEval e1) s with
         | Ok s1 _ =>
             let name := match e1 with ERef n _ => n | _ => c_rule c end in
             Fail (record (neg_ctx c) true name (set_trk s (s_trk s1)))
@@ -217,12 +221,12 @@ Fixpoint eval (fuel : nat) (c : ctx) (e : expr) (s : st) {struct fuel} : res :=
         | x => x
         end
     | EGrp e1 tag =>
-        match eval f c e1 (push_tag tag s) with
+        match run f c (TEval e1) (push_tag tag s) with
         | Ok s1 ps => Ok (pop_tag tag s1) ps
         | x => x
         end
     | EPush e1 =>
-        match eval f c e1 s with
+        match run f c (TEval e1) s with
         | Ok s1 ps =>
             let w := firstn (N.to_nat (s_pos s1 - s_pos s)) (s_rest s) in
             Ok (set_stk s1 (w :: s_stk s1)) ps
@@ -274,23 +278,18 @@ Fixpoint eval (fuel : nat) (c : ctx) (e : expr) (s : st) {struct fuel} : res :=
                  end in
         Ok (adv s n (skipn (N.to_nat n) (s_rest s))) []
     end
-  end
-
-with eval_seq (fuel : nat) (c : ctx) (es : list expr) (s : st) {struct fuel} : res :=
-  match fuel with
-  | O => Fuel
-  | S f =>
+  | TSeq es =>
     match es with
     | [] => Ok s []
     | e1 :: es' =>
-        match eval f c e1 s with
+        match run f c (TEval e1) s with
         | Ok s1 p1 =>
             match es' with
             | [] => Ok s1 p1
             | _ =>
-                match skip_with (eval f) c s1 with
+                match skip_with (fun c' e' => run f c' (TEval e')) c s1 with
                 | Ok s2 pw =>
-                    match eval_seq f c es' s2 with
+                    match run f c (TSeq es') s2 with
                     | Ok s3 p3 => Ok s3 (p1 ++ pw ++ p3)
                     | x => x
                     end
@@ -300,33 +299,23 @@ with eval_seq (fuel : nat) (c : ctx) (es : list expr) (s : st) {struct fuel} : r
         | x => x
         end
     end
-  end
-
-with eval_alt (fuel : nat) (c : ctx) (es : list expr) (s : st) {struct fuel} : res :=
-  match fuel with
-  | O => Fuel
-  | S f =>
+  | TAlt es =>
     match es with
     | [] => Fail (s_trk s)
     | e1 :: es' =>
-        match eval f c e1 s with
-        | Fail t => eval_alt f c es' (set_trk s t)
+        match run f c (TEval e1) s with
+        | Fail t => run f c (TAlt es') (set_trk s t)
         | x => x
         end
     end
-  end
-
-(* after one successful iteration ending in state s: try `skip ~ e` again, undoing the skip
-   when e fails *)
-with eval_star (fuel : nat) (c : ctx) (e1 : expr) (s : st) {struct fuel} : res :=
-  match fuel with
-  | O => Fuel
-  | S f =>
-    match skip_with (eval f) c s with
+  (* after one successful iteration ending in state s: try `skip ~ e` again, undoing the
+     skip when e fails *)
+  | TStar e1 =>
+    match skip_with (fun c' e' => run f c' (TEval e')) c s with
     | Ok s2 pw =>
-        match eval f c e1 s2 with
+        match run f c (TEval e1) s2 with
         | Ok s3 p3 =>
-            match eval_star f c e1 s3 with
+            match run f c (TStar e1) s3 with
             | Ok s4 p4 => Ok s4 (pw ++ p3 ++ p4)
             | x => x
             end
@@ -335,7 +324,13 @@ with eval_star (fuel : nat) (c : ctx) (e1 : expr) (s : st) {struct fuel} : res :
         end
     | x => x
     end
+  end
   end.
+
+Definition eval (fuel : nat) (c : ctx) (e : expr) (s : st) : res := run fuel c (TEval e) s.
+Definition eval_seq (fuel : nat) (c : ctx) (es : list expr) (s : st) : res := run fuel c (TSeq es) s.
+Definition eval_alt (fuel : nat) (c : ctx) (es : list expr) (s : st) : res := run fuel c (TAlt es) s.
+Definition eval_star (fuel : nat) (c : ctx) (e : expr) (s : st) : res := run fuel c (TStar e) s.
 
 Definition ctx0 : ctx := {| c_atom := NonAtomic; c_rule := 0; c_neg := 0; c_sup := false |}.
 
